@@ -12,11 +12,12 @@
 #include <sys/uio.h>
 
 #include "fb_common.h"
+#include <signal.h>
 
 static int trial, scen;
 static _Atomic long ticker_count;
 static _Atomic int stop_ticker;
-static vp_counter_t *c_trials, *c_bytes, *c_calls[12], *c_short, *c_blocked_calls, *c_nb_calls, *c_restore_fcntl, *c_invalid_calls, *c_close_wakes, *c_accepts, *c_dgrams, *c_scen[16];
+static vp_counter_t *c_trials, *c_bytes, *c_calls[12], *c_short, *c_blocked_calls, *c_nb_calls, *c_restore_fcntl, *c_hup, *c_invalid_calls, *c_close_wakes, *c_accepts, *c_dgrams, *c_scen[16];
 static const char* const call_names[12] = {"io_read", "io_recv", "io_readv", "io_recvfrom", "io_recvmsg", "io_write", "io_send", "io_writev", "io_sendto", "io_sendmsg", "io_accept", "io_connect"};
 
 // errno is thread-local and a fiber may come back from a blocking call on another kernel thread, while the compiler
@@ -313,6 +314,61 @@ static void scen_eof(uint64_t* rng) {
   sl[1] = fb_spawn(stream_writer, (void*)(intptr_t)&c);
   fb_join_all(sl, 2);
   close(sv[1]);
+}
+
+// ---- scenario 1b: hang-up on a pipe. A reader parked on an empty pipe must see end-of-file when the last writer closes; a writer
+// parked on a full pipe must get EPIPE when the last reader closes (the kernel reports these as hang-up/error conditions, not as
+// "readable"/"writable").
+static int hup_fd;
+static _Atomic int hup_parked;
+static void* hup_closer(void* a) {
+  (void)a;
+  int i;
+  // let the peer park first (bounded), then a little longer
+  for (i = 0; i < 2000 && !atomic_load(&hup_parked); ++i) fiber_yield();
+  usleep(3000);
+  close(hup_fd);
+  return NULL;
+}
+static void scen_pipe_hangup(fb_slot_t* me, uint64_t* rng) {
+  int p[2];
+  if (pipe(p)) return;
+  const int reader_side = (int)(vp_rand(rng) & 1);
+  atomic_store(&hup_parked, 0);
+  if (reader_side) {
+    hup_fd = p[1];
+    fb_slot_t* c = fb_spawn(hup_closer, NULL);
+    char b[16];
+    ssize_t r = -2;
+    vp_errno_clear();
+    atomic_store(&hup_parked, 1);
+    FB_BLOCKING(me, "C08 read (empty pipe, the writer then closes: must return 0)", r = read(p[0], b, sizeof(b)));
+    if (r != 0) vp_violation("C08", "io:eof-after-hangup", "trial %d: read on an empty pipe whose writer closed returned %zd (errno %d) instead of 0", trial, r, vp_errno());
+    fiber_join(c->fiber, NULL);
+    close(p[0]);
+    vp_add(c_hup, 1);
+  } else {
+    hup_fd = p[0];
+    static char big[1 << 16];
+    memset(big, 7, sizeof(big));
+    fb_slot_t* c = fb_spawn(hup_closer, NULL);
+    ssize_t w = 0;
+    int err = 0, rounds = 0;
+    // fill the pipe until the call has to wait; the reader end is closed while we wait (or between two calls)
+    for (;;) {
+      vp_errno_clear();
+      if (rounds > 2) atomic_store(&hup_parked, 1);
+      FB_BLOCKING(me, "C08 write (full pipe, the reader then closes: must fail with EPIPE)", w = write(p[1], big, sizeof(big)));
+      err = vp_errno();
+      if (w < 0) break;
+      if (++rounds > 4096) break;
+    }
+    if (!(w < 0 && err == EPIPE))
+      vp_violation("C08", "io:epipe-after-hangup", "trial %d: writing into a pipe whose reader closed ended with %zd (errno %d) after %d full writes instead of EPIPE", trial, w, err, rounds);
+    fiber_join(c->fiber, NULL);
+    close(p[1]);
+    vp_add(c_hup, 1);
+  }
 }
 
 // ---- scenario 2: non-blocking modes must return at once (no context switch), with EAGAIN on an empty socket
@@ -849,6 +905,7 @@ static void* root(void* x) {
   c_blocked_calls = vp_counter("io_calls_that_suspended_the_fiber");
   c_nb_calls = vp_counter("io_nonblocking_probes");
   c_restore_fcntl = vp_counter("io_blocking_mode_restored_via_fcntl");
+  c_hup = vp_counter("io_pipe_hangups_while_parked");
   c_invalid_calls = vp_counter("io_invalid_descriptor_probes");
   c_close_wakes = vp_counter("io_readers_woken_by_close");
   c_accepts = vp_counter("io_connections_accepted_with_several_acceptors");
@@ -864,7 +921,7 @@ static void* root(void* x) {
     vp_add(c_scen[scen], 1);
     switch (scen) {
       case 0: scen_streams(&rng); break;
-      case 1: scen_eof(&rng); break;
+      case 1: if (vp_rand(&rng) & 1) scen_eof(&rng); else scen_pipe_hangup(me, &rng); break;
       case 2: scen_nonblocking(me, &rng); break;
       case 3: scen_invalid(&rng); break;
       case 4: scen_close_wakes(&rng); break;
@@ -884,4 +941,7 @@ static void* root(void* x) {
   return NULL;
 }
 
-int main(int argc, char** argv) { return fb_main(argc, argv, root); }
+int main(int argc, char** argv) {
+  signal(SIGPIPE, SIG_IGN);  // EPIPE is reported through errno
+  return fb_main(argc, argv, root);
+}
